@@ -551,6 +551,7 @@ def run(chk, ctx):
     homo(chk, ctx, rf)
     base_rules(chk, ctx)
     fill_ranges(chk, ctx)
+    zero_column_rule(chk, ctx)
     chk.note("not decided: that the recurrences are the optimum of the hierarchical problem, and the monotonicity "
              "statements between classes (consequences of the min over options, but they need induction over table values)")
 
@@ -1097,6 +1098,72 @@ def base_rules(chk, ctx):
                 chk.decide("C07.BASE", cons, True if ok else False,
                            f"one-slot entries of opt at level 0 are `{' '.join(ast.unparse(one_o[0].value).split())}` = {pstr(expect)}; the "
                            f"production of {bname} with K = 0, cmem = 1 costs {pstr(costs_[0])}", rel=rel, node=one_o[0])
+
+
+def zero_column_rule(chk, ctx):
+    """get_hopt_table: with no slot at level k the only option is not to write at that level, so the border entry
+    `T[k][l][0] = E` must be the very term that the general entry `T[k][l][m] = min(A, B)` keeps as the option without a
+    write at level k: E is A or B (as polynomials over the table atoms)."""
+    repo = ctx.repo
+    rel = "hrevolve_sequences/hrevolve.py"
+    try:
+        fn = repo.func(rel, "get_hopt_table")
+    except Exception:
+        return
+    pb = PolyBuilder()
+    params = {a.arg for a in fn.args.args + fn.args.kwonlyargs}
+    loopvars = {x.id for n in ast.walk(fn) if isinstance(n, (ast.For, ast.comprehension)) for x in ast.walk(n.target)
+                if isinstance(x, ast.Name)}
+    locals_ = {x.id for n in ast.walk(fn) if isinstance(n, ast.Assign) for t in n.targets for x in ast.walk(t)
+               if isinstance(x, ast.Name) and isinstance(x.ctx, ast.Store) and isinstance(t, (ast.Name, ast.Tuple))}
+
+    def plain(e):
+        """only table atoms, parameters and loop variables: nothing the comparison cannot see through"""
+        for x in ast.walk(e):
+            if isinstance(x, ast.Name) and x.id in locals_ and x.id not in loopvars and x.id not in params:
+                # a table variable subscripted is fine, a scalar local is not
+                if not any(isinstance(p_, ast.Subscript) and _root(p_) is x for p_ in ast.walk(e)):
+                    return False
+            if isinstance(x, (ast.Call, ast.IfExp, ast.Lambda)):
+                return False
+        return True
+
+    def _root(sub):
+        cur = sub
+        while isinstance(cur, ast.Subscript):
+            cur = cur.value
+        return cur
+    general = {}
+    for n in ast.walk(fn):
+        if isinstance(n, ast.Assign) and len(n.targets) == 1 and isinstance(n.targets[0], ast.Subscript) \
+                and isinstance(n.targets[0].slice, ast.Name) and isinstance(n.value, ast.Call) \
+                and getattr(n.value.func, "id", None) == "min" and len(n.value.args) == 2 \
+                and not any(isinstance(a, (ast.List, ast.ListComp, ast.BinOp)) and isinstance(a, (ast.List, ast.ListComp))
+                            for a in n.value.args):
+            general.setdefault(ast.unparse(n.targets[0].value), []).append(n)
+    k = 0
+    for n in ast.walk(fn):
+        if not (isinstance(n, ast.Assign) and len(n.targets) == 1 and isinstance(n.targets[0], ast.Subscript)
+                and isinstance(n.targets[0].slice, ast.Constant) and n.targets[0].slice.value == 0):
+            continue
+        base = ast.unparse(n.targets[0].value)
+        gens = general.get(base)
+        if not gens or isinstance(n.value, ast.Call):
+            continue
+        cons = f"hrevolve_sequences.hrevolve.get_hopt_table#zero-column[{k}]"
+        k += 1
+        g = gens[0]
+        a, b = g.value.args
+        if not (plain(n.value) and plain(a) and plain(b)):
+            chk.decide("C07.BASE", cons, None, f"`{ast.unparse(n)[:80]}`: value goes through locals or calls the rule does not follow",
+                       rel=rel, node=n, nontrivial=False)
+            continue
+        e = pkey(pb.poly(n.value))
+        ok = e in (pkey(pb.poly(a)), pkey(pb.poly(b)))
+        chk.decide("C07.BASE", cons, True if ok else False,
+                   f"`{' '.join(ast.unparse(n).split())[:90]}` " + ("is the no-write option of the general entry" if ok else
+                   f"is neither option of the general entry `{' '.join(ast.unparse(g).split())[:110]}`: with no slot at this level the "
+                   "table records a cost that no production attains"), rel=rel, node=n, nontrivial=False)
 
 
 def fill_ranges(chk, ctx):
